@@ -281,7 +281,7 @@ def _body(s):
         left = []
         for t in list(s.threads[1:]):
             if t.state != "finished":
-                s.point(pred=lambda t=t: t.state == "finished", timeout=5.0)
+                s.point(pred=lambda t=t: t.state == "finished", timeout=5.0, early=False)
                 if t.state != "finished":
                     left.append(t.name[:60])
         res["threads_left"] = left
